@@ -1,7 +1,186 @@
 import Mutagen.Driver.Util
+import Mutagen.Driver.Tree
+import Mutagen.Driver.Cycle
+import Mutagen.Model.SyncCycle
 namespace Mutagen.Driver.C11
+open Mutagen.Driver Mutagen.Driver.Tree Mutagen.Driver.Cycle Mutagen.Model
 
-/-- Model-side handler for one line of the C11 correspondence stream. -/
-def handle (_line : String) : String := "unimplemented"
+/-!
+Lines (trees, changes in the encoding of `Driver/Tree.lean`):
+
+* `e <A> <alpha> <beta>` → `oneEndpointEmptiedRoot` as 0/1.
+* `r <changes>` → `containsRootDeletion`, `containsRootTypeChange` as two 0/1 digits.
+* `f <filtered> <original>` → `filteredPathsAreSubset` as 0/1 (comma-separated
+  text tokens, `-` = empty list).
+* `s <mode> <portable> <αpreserves> <βpreserves> <A> <alpha> <beta>` → one cycle
+  of a real session over scripted endpoints (see `Driver/Cycle.lean`), followed
+  by ` again=<…>`: the answer to a second flush with unchanged contents
+  (`refused` when the session is halted).
+* `S <mode> <A> <alpha> <beta> <script>` → the run loop over scripted endpoints
+  (both preserve executability). Script items: `t` (flush), `t=<alpha>=<beta>`
+  (the endpoints' contents are replaced, then flush), `pr` (pause + resume).
+  Items are separated by `;`. One answer per item, joined by ` | `; processing
+  stops after a failed cycle.
+* `R <mode> <steps>` → a real session between two real directories (both local
+  endpoints). Steps edit one root (`a`/`b`) or drive the session; file contents
+  are one byte, written as the digest. See `fsStep`.
+-/
+
+def parseTextList (s : String) : Option (List String) :=
+  if s == "-" then some [] else (s.splitOn ",").mapM decText
+
+structure World where
+  run : RunState
+  α : Option Entry
+  β : Option Entry
+
+def ancestorOf : RunState → Option Entry
+  | .synchronizing a => a
+  | .halted _ a => a
+  | .reconnecting a => a
+  | .terminated => none
+
+def showWorld (w : World) : String :=
+  "anc=" ++ showOEntry (ancestorOf w.run) ++ " alpha=" ++ showOEntry w.α ++ " beta=" ++ showOEntry w.β
+
+/-- A flush: one trigger of the run loop with the current contents; both
+endpoints preserve executability and apply transitions exactly. -/
+def trigger (mode : Mode) (w : World) (transOnly : Bool := false) : String × World :=
+  match w.run with
+  | .halted h _ => ("refused:" ++ showHalt h ++ " ev=- " ++ showWorld w, w)
+  | .synchronizing a =>
+    let sα : Scan := { content := w.α, preserves := true }
+    let sβ : Scan := { content := w.β, preserves := true }
+    let eps := worldEndpoints w.α w.β false false
+    let r := cycle mode true eps a sα sβ
+    let (run', evs) := runStep mode true eps w.run (.trigger sα sβ)
+    let (α', β') := worldAfter w.α w.β false false evs
+    let w' : World := { run := run', α := α', β := β' }
+    let shown := if transOnly then evs.filter (fun | .transition _ _ => true | _ => false) else evs
+    (showOutcome r.outcome ++ " ev=" ++ showEvents shown ++ " " ++ showWorld w', w')
+  | _ => ("not-running", w)
+
+/-- Pause + resume: the context is cancelled, then a new run loop starts from
+the archive on disk. -/
+def pauseResume (mode : Mode) (w : World) : String × World :=
+  let a := ancestorOf w.run
+  let (s1, _) := runStep mode true Endpoints.ideal w.run .cancel
+  let w' : World := { w with run := match s1 with | .terminated => .synchronizing a | s => s }
+  ("resumed " ++ showWorld w', w')
+
+def failedOutcome (s : String) : Bool := s.startsWith "failed"
+
+def script (mode : Mode) : World → List String → Option (List String)
+  | _, [] => some []
+  | w, item :: rest =>
+    match item.splitOn "=" with
+    | ["t"] =>
+      let (out, w') := trigger mode w
+      if failedOutcome out then some [out] else (script mode w' rest).map (out :: ·)
+    | ["t", al, be] => do
+      let w := { w with α := ← parseOEntry al, β := ← parseOEntry be }
+      let (out, w') := trigger mode w
+      if failedOutcome out then some [out] else (script mode w' rest).map (out :: ·)
+    | ["pr"] =>
+      let (out, w') := pauseResume mode w
+      (script mode w' rest).map (out :: ·)
+    | _ => none
+
+/-! ### Real directories -/
+
+/-- The directory that holds the last component of `path`, if it is one. -/
+def parentIsDir (t : Option Entry) (path : Path) : Bool :=
+  match path with
+  | [] => true
+  | _ => isKind (getPath t path.dropLast) .directory
+
+def setAt (t : Option Entry) (path : Path) (v : Option Entry) : Option Entry :=
+  if !parentIsDir t path then t
+  else if path.isEmpty then v
+  else if v.isNone && (getPath t path).isNone then t
+  else match apply t [{ path := path, old := none, new := v }] with
+    | .ok t' => t'
+    | .error _ => t
+
+def fileEntry (d : List UInt8) (x : Bool) : Entry := .mk { kind := .file, executable := x, digest := d } []
+def dirEntry : Entry := .mk { kind := .directory } []
+
+/-- One edit of a root: `w=<path>=<hex>[x]` write a file (replacing whatever
+is there), `m=<path>` make an empty directory (replacing whatever is there),
+`d=<path>` delete recursively (`/` deletes the root), `e` delete every child of
+the root directory. All are no-ops when the parent is not a directory. -/
+def fsEdit (t : Option Entry) : List String → Option (Option Entry)
+  | ["w", p, d] => do
+    let path ← parsePath p
+    let (hex, x) := if d.endsWith "x" then ((d.dropEnd 1).toString, true) else (d, false)
+    let dg ← decHex hex
+    pure (setAt t path (some (fileEntry dg x)))
+  | ["m", p] => do
+    pure (setAt t (← parsePath p) (some dirEntry))
+  | ["d", p] => do
+    pure (setAt t (← parsePath p) none)
+  | ["e"] =>
+    match t with
+    | some (.mk p _) => if p.kind == .directory then some (some (.mk p [])) else some t
+    | none => some t
+  | _ => none
+
+def fsScript (mode : Mode) : World → List String → Option (List String)
+  | _, [] => some []
+  | w, item :: rest =>
+    match item.splitOn "=" with
+    | ["f"] =>
+      let (out, w') := trigger mode w true
+      if failedOutcome out then some [out] else (fsScript mode w' rest).map (out :: ·)
+    | ["pr"] =>
+      let (out, w') := pauseResume mode w
+      (fsScript mode w' rest).map (out :: ·)
+    | side :: edit =>
+      if side == "a" then do
+        let t ← fsEdit w.α edit
+        fsScript mode { w with α := t } rest
+      else if side == "b" then do
+        let t ← fsEdit w.β edit
+        fsScript mode { w with β := t } rest
+      else none
+    | _ => none
+
+def run : List String → Option String
+  | ["e", a, al, be] => do
+    pure (showBool (oneEndpointEmptiedRoot (← parseOEntry a) (← parseOEntry al) (← parseOEntry be)))
+  | ["r", cs] => do
+    let cs ← parseChanges cs
+    pure (showBool (containsRootDeletion cs) ++ showBool (containsRootTypeChange cs))
+  | ["f", fl, orig] => do
+    pure (showBool (filteredPathsAreSubset (← parseTextList fl) (← parseTextList orig)))
+  | ["s", m, perm, pa, pb, a, al, be] => do
+    let mode ← parseMode m
+    let α : Scan := { content := ← parseOEntry al, preserves := ← parseFlag pa }
+    let β : Scan := { content := ← parseOEntry be, preserves := ← parseFlag pb }
+    let portable ← parseFlag perm
+    let (out, r, α', β') := sessionCycle mode portable (← parseOEntry a) α β
+    let again :=
+      match r.outcome with
+      | .halted _ => "refused"
+      | .failed _ => "-"
+      | .completed =>
+        (sessionCycle mode portable r.ancestor { α with content := α' } { β with content := β' }).1
+    pure (out ++ " again=" ++ again)
+  | ["S", m, a, al, be, sc] => do
+    let mode ← parseMode m
+    let w : World := { run := .synchronizing (← parseOEntry a), α := ← parseOEntry al, β := ← parseOEntry be }
+    let outs ← script mode w (if sc == "-" then [] else sc.splitOn ";")
+    pure (" | ".intercalate outs)
+  | ["R", m, steps] => do
+    let mode ← parseMode m
+    let w : World := { run := .synchronizing none, α := some dirEntry, β := some dirEntry }
+    let outs ← fsScript mode w (listField steps)
+    pure (" | ".intercalate outs)
+  | _ => none
+
+def handle (line : String) : String :=
+  match run (fields line) with
+  | some out => out
+  | none => "bad-op"
 
 end Mutagen.Driver.C11
